@@ -352,6 +352,7 @@ Fixpoint dec_stream (fuel : nat) (b : list N) : list sitem * send :=
       | _ :: l3 :: l2 :: l1 :: l0 :: _ =>
           let len := u32 l3 l2 l1 l0 in
           if len <? 5 then ([], SShort)
+          else if lenN b <? len then ([], SCut)      (* compared as binary numbers: the declared length may be 2^32 - 1 *)
           else match take_n len b with
                | Some (fr, rest) =>
                    let '(items, e) := dec_stream fuel' rest in
